@@ -71,7 +71,7 @@ def r5(repo, run):
             src = K[len('each('):-1] if K.startswith('each(') and K.endswith(')') else K
             def _open(p_):
                 # (a condition that is a function of the key alone is decided - possibly by a TypeError - and is not "open")
-                return [t for t, pol in p_.facts if tr.eval_fact(t, sub) is None and (src in t or '$obj' in t or 'generated(' in t)
+                return [t for t, pol in p_.facts if not t.startswith('comprehension-filter:') and tr.eval_fact(t, sub) is None and (src in t or '$obj' in t or 'generated(' in t)
                         and tr.eval_fact(t.replace(K, '0'), {'len(self)': LEN}) is None]
             if all(_open(p_) for p_ in completes):
                 raise AnalysisError('ConfigList.on_merge_impl: whether the invalid key %r is rejected depends on a condition the analysis cannot evaluate (%s)' % (k, _open(completes[0])[0][:120]))
